@@ -12,5 +12,7 @@ package v3
 //@ loop MigrateParams#1
 //@   invariant 0 <= \i && \i <= len(oldParams.MinterConfig.Minters) && len(newParams.Minters) == \i && off(newParams.Minters) == 0
 //@   invariant newParams.MintDenom == oldParams.MintDenom && newParams.StartTime == oldParams.MinterConfig.StartTime
+//@   // the new list is built by append in this call (the validation that follows sorts it in place)
+//@   invariant \i == 0 ? arr(newParams.Minters) == 0 : freshSlice(newParams.Minters)
 //@   invariant forall j: int :: {newParams.Minters[j]} 0 <= j && j < \i ==> newParams.Minters[j] != nil
 //@     && newParams.Minters[j].SequenceId == oldParams.MinterConfig.Minters[j].SequenceId && newParams.Minters[j].EndTime == oldParams.MinterConfig.Minters[j].EndTime
